@@ -23,7 +23,7 @@ ASSUMPTIONS = ["reaction table written from RFC 7252 section 4 and RFC 7967, ind
                "CON requests addressed to a multicast group are not generated (peer misbehaviour the statement does not cover)"]
 EXPECTED_PROBES = ["token_reused_after_completed_exchange", "duplicated_request", "ping", "piggyback", "empty_ack_then_separate", "handler_at_delay_minus_eps", "handler_at_delay_plus_eps",
                    "matched_con_response", "unmatched_con_response_unicast", "unmatched_con_response_multicast",
-                   "no_response_suppressed", "misfit", "request_to_multicast", "reliable_to_multicast", "boundary_message_id"]
+                   "no_response_suppressed", "misfit", "request_to_multicast", "reliable_to_multicast", "boundary_message_id", "ipv4_mapped"]
 
 DELAY = 0.1
 HANDLERS = {"fast": 0.0, "pre": DELAY - 1e-3, "post": DELAY + 1e-3, "slow": 0.5}
@@ -91,7 +91,7 @@ def gen(r, tier):
     if inj and r.chance(0.3):
         # message IDs at the ends of the 16-bit range (0 is a valid message ID)
         r.choice(inj)["mid"] = r.choice([0, 0, 0xFFFF])
-    return {"ops": ops}
+    return {"ops": ops, "v4": r.chance(0.25)}
 
 
 def systematic(tier):
@@ -147,7 +147,8 @@ def draw_bias(scn):
 class Peer(ScriptedEndpoint):
     groups = {MCAST}
 
-    def __init__(self, sim, ip, port):
+    def __init__(self, sim, ip, port, group=MCAST):
+        self.groups = {group}
         super().__init__(sim, ip, port)
         self.requests_seen = []  # (t, msg, dst_ip)
 
@@ -168,6 +169,14 @@ class Peer(ScriptedEndpoint):
 
 
 def execute(sim, scn):
+    # the dual-stack variant: the same scenario over IPv4-mapped addresses (the udp6 transport serves IPv4 through its
+    # IPv6 socket; "All CoAP Nodes" is 224.0.1.187 there)
+    v4 = bool(scn.get("v4"))
+    MCAST = "::ffff:224.0.1.187" if v4 else globals()["MCAST"]
+    SERVER_IP = "::ffff:10.0.0.1" if v4 else common.SERVER_IP
+    PEER_IP = "::ffff:10.0.0.10" if v4 else common.PEER_IPS[0]
+    if v4:
+        sim.probe("ipv4_mapped")
     import asyncio
     import aiocoap
     import aiocoap.resource as resource
@@ -202,11 +211,11 @@ def execute(sim, scn):
         site = resource.Site()
         for h in list(HANDLERS) + ["raise", "slowraise", "ret4", "ret5", "slowret5"]:
             site.add_resource([h], H(h))
-        return await sim.server(site, common.SERVER_IP, multicast=[(MCAST, "sim1")])
+        return await sim.server(site, SERVER_IP, multicast=[("224.0.1.187" if v4 else MCAST, "sim1")])
 
     ctx = loop.run_until_complete(setup())
-    E = (common.SERVER_IP, 5683)
-    peer = Peer(sim, common.PEER_IPS[0], 5683)
+    E = (SERVER_IP, 5683)
+    peer = Peer(sim, PEER_IP, 5683, group=MCAST)
     tracker = common.Tracker(sim)
     outstanding = []  # tokens of E's requests to the peer not yet matched, in order
     injected = []
@@ -223,7 +232,7 @@ def execute(sim, scn):
 
     def do_inject(i, op):
         mid = op.get("mid", 0x8000 + i)
-        token = bytes([0xE0, i])
+        token = bytes([0xE0, i & 0xFF, 0x77, 0x55, 0x33])  # five bytes: never a token of the endpoint itself in a run
         if mid in (0, 0xFFFF):
             sim.probe("boundary_message_id")
         if op.get("token") == "match":
@@ -302,7 +311,7 @@ def execute(sim, scn):
     sim.run()
 
     wire = sim.net.wire
-    from_e = [e for e in wire if e["src"][1] == 5683 and e["src"][0] in (common.SERVER_IP, MCAST) and not e["forged"]
+    from_e = [e for e in wire if e["src"][1] == 5683 and e["src"][0] in (SERVER_IP, MCAST) and not e["forged"]
               and e["msg"] is not None and e["dst"] != E]
     # global: no CON to multicast, no multicast source address
     for e in wire:
